@@ -267,6 +267,21 @@ def u_arith(n, r):
             'print(fn_calc{n}(7, 2, 10), fn_calc{n}(3, 5, 1))'], {}
 
 
+def u_mixed_ops(n, r):
+    # three and four operand expressions over mixed precedence / non-associative operators: their
+    # operand runs (`b + c` in `a * b + c`) are text ranges that are not sub-expressions
+    return ['def fn_mix{n}(par_a{n}, par_b{n}, par_c{n}):',
+            '    var_m1{n} = par_a{n} - par_b{n} + par_c{n}',
+            '    var_m2{n} = par_a{n} * par_b{n} + par_c{n}',
+            '    var_m3{n} = par_a{n} - par_b{n} - par_c{n}',
+            '    var_m4{n} = par_a{n} < par_b{n} < par_c{n}',
+            '    var_m5{n} = par_a{n} // par_b{n} * par_c{n}',
+            '    var_m6{n} = par_a{n} + par_b{n} * par_c{n} - par_a{n}',
+            '    var_m7{n} = [par_a{n} or par_b{n} and par_c{n}, par_a{n} + par_b{n} + par_c{n}]',
+            '    return [var_m1{n}, var_m2{n}, var_m3{n}, var_m4{n}, var_m5{n}, var_m6{n}, var_m7{n}]',
+            'print(fn_mix{n}(7, 2, 10), fn_mix{n}(0, 5, 1))'], {}
+
+
 def u_accumulate(n, r):
     return ['def fn_stats{n}(par_xs{n}):',
             '    var_total{n} = 0',
@@ -415,7 +430,7 @@ def u_decorated_methods(n, r):
 SINGLE = [u_function, u_class, u_inherit, u_closure_nonlocal, u_closure, u_comp_filter, u_comp, u_loop,
           u_try, u_lambda, u_generator, u_decorator, u_property, u_global, u_with, u_starargs, u_dicts,
           u_walrus_while, u_method_chain, u_rebind_if, u_rebind_try, u_rebind_while, u_arith, u_arith, u_accumulate, u_accumulate,
-          u_async_methods, u_decorated_methods]
+          u_async_methods, u_decorated_methods, u_mixed_ops]
 MULTI = [m_import_module, m_from_import, m_alias, m_reexport, m_keyword_across, m_submodule,
          m_global_across, m_deep_package, m_self_mentioning_module]
 
